@@ -334,7 +334,8 @@ pub fn run(ctx: &Ctx) {
     }
     {
         let mut long = Vec::new();
-        let bases = [0u64, 1, 7, 200, 65536 - 300, (1 << 32) - 280, u64::MAX - 700];
+        let n_long = ctx.tier.pick(600usize, 1500);
+        let bases = [0u64, 1, 7, 200, 65536 - 300, (1 << 32) - 280, u64::MAX - n_long as u64 - 100];
         for (i, base) in bases.iter().enumerate() {
             for rep in 0..ctx.tier.pick(2usize, 12) {
                 let k = i * 12 + rep;
@@ -342,7 +343,7 @@ pub fn run(ctx: &Ctx) {
                     pattern: pats[k % pats.len()].to_string(),
                     suite_idx: (k * 7 + 3) % 24,
                     backend: if k % 2 == 0 { Backend::RingFirst } else { Backend::Default },
-                    n: ctx.tier.pick(600, 1500),
+                    n: n_long,
                     base: *base,
                     seed: mix(seed, 4000 + k as u64),
                 });
